@@ -244,7 +244,7 @@ func (w *world) apply(target string, o wop) {
 	case "dec":
 		// decimals that differ from one another only beyond float32 resolution
 		w.decN++
-		digits := int64(16777216) + w.decN
+		digits := int64(16777215) + w.decN // 16777216, 16777217 (the same float32), 16777218, ...
 		w.noteHeld(target, okey(o.path), digits)
 		og, el := orig(o.path)
 		w.c.GnmiUpdate(&pb.Notification{Timestamp: w.ts, Prefix: &pb.Path{Target: target, Origin: og}, Update: []*pb.Update{{Path: mkPath(el), Val: &pb.TypedValue{Value: &pb.TypedValue_DecimalVal{DecimalVal: &pb.Decimal64{Digits: digits, Precision: 0}}}}}})
